@@ -244,6 +244,9 @@ func c15ReplayCLI(a vh.Args, o *vh.Oracle, r *vh.Result, c *c15Case) error {
 		return err
 	}
 	defer e.stop()
+	if strings.HasPrefix(c.Desc, "history-") { // the answer depends on what the process served before: replay the history
+		return c15HistoryRequests(a, o, r, e, vh.NewRand(a.Seed).Fork())
+	}
 	return c15DoCLI(a, o, r, e, c)
 }
 
@@ -379,6 +382,140 @@ func c15PlumbingRequests(a vh.Args, o *vh.Oracle, r *vh.Result, e *c15Env) error
 			if err := do(m, p(id), "read", right, nil); err != nil {
 				return err
 			}
+		}
+	}
+	return nil
+}
+
+// ---------- request histories against the binaries (quick and thorough) ----------
+//
+// `desync chunk-server` / `index-server` started with DEFAULT options plus an authorization value
+// (read-only; nothing else on the command line, so whatever a default turns on is exercised).
+// One process answers a whole history in which authorized requests are interleaved with
+// unauthorized ones FOR THE SAME OBJECTS, in both orders and repeatedly.  Every request is judged
+// on its own by the C15 predicate and compared with the model, which is stateless
+// (C15_history_auth_gate, C15_history_stateless): what an earlier request did must not matter.
+
+func c15Histories(a vh.Args, o *vh.Oracle, r *vh.Result, rng *vh.Rand) error {
+	if os.Getenv("VH_DESYNC") == "" {
+		r.Note("VH_DESYNC not set: request histories against the binaries skipped")
+		return nil
+	}
+	const s1 = "Bearer s3cr3t-Token"
+	mk := func(kind, flag, env string) c15Cfg {
+		auth := flag
+		if auth == "" {
+			auth = env
+		}
+		return c15Cfg{Kind: kind, Auth: auth, Writable: false, SkipVerifyWrite: true, Compressed: true, StoreWritable: true,
+			Plumbing: true, AuthFlag: flag, AuthEnv: env, SkipVerifyRead: "default"}
+	}
+	cfgs := []c15Cfg{mk("chunk", s1, ""), mk("chunk", "", s1), mk("index", s1, "")}
+	for n, cfg := range cfgs {
+		if cfg.Kind == "index" {
+			cfg.Compressed = false
+		}
+		st := c15MakeState(a.Seed)
+		e, err := c15StartCLI(filepath.Join(a.Work, fmt.Sprintf("hist%d", n)), cfg, st)
+		if err != nil {
+			return err
+		}
+		if e == nil {
+			return nil
+		}
+		err = c15HistoryRequests(a, o, r, e, rng)
+		e.stop()
+		if err != nil {
+			return err
+		}
+	}
+	return nil
+}
+
+func c15HistoryRequests(a vh.Args, o *vh.Oracle, r *vh.Result, e *c15Env, rng *vh.Rand) error {
+	cfg, st := e.cfg, e.state
+	hdr := map[string][]string{
+		"A":       {"Authorization: " + cfg.Auth},
+		"none":    nil,
+		"wrong":   {"Authorization: Bearer wrong"},
+		"case":    {"Authorization: " + strings.ToLower(cfg.Auth)},
+		"suffix":  {"Authorization: " + cfg.Auth + "x"},
+		"prefix":  {"Authorization: " + cfg.Auth[:len(cfg.Auth)-1]},
+		"empty":   {"Authorization:"},
+		"twice-w": {"Authorization: Bearer wrong", "Authorization: " + cfg.Auth},
+	}
+	step := 0
+	var hist []string
+	do := func(who, method, target string, body []byte) error {
+		step++
+		c := &c15Case{Cfg: cfg, Level: "cli", StateSeed: a.Seed, Method: method, Target: target, Headers: hdr[who], BodyHex: vh.Hex(body),
+			Desc: fmt.Sprintf("history-step-%d-%s", step, who), History: append([]string{}, hist...)}
+		hist = append(hist, fmt.Sprintf("%s %s %q", method, target, hdr[who]))
+		r.Dist("history:" + who + "/" + method)
+		return c15DoCLI(a, o, r, e, c)
+	}
+	var objs, absent []string
+	var body []byte
+	if cfg.Kind == "chunk" {
+		p := func(d []byte) string { id := c15IDStr(d); return "/" + id[:4] + "/" + id + ".cacnk" }
+		objs = []string{p(st.chunks[2]), p(st.chunks[1]), p(st.chunks[0])}
+		absent = []string{p(st.newChunk)}
+		body = c15Compress(st.newChunk)
+	} else {
+		objs = []string{"/a.caibx", "/b.caidx", "/sub/../a.caibx"}
+		absent = []string{"/missing.caibx"}
+		body = c15Index(vh.NewRand(a.Seed+79), 2)
+	}
+	unauth := []string{"none", "wrong", "case", "suffix", "prefix", "empty", "twice-w"}
+	// object 0: unauthorized first, then authorized, then every unauthorized variant, GET and HEAD
+	if err := do("none", "GET", objs[0], nil); err != nil {
+		return err
+	}
+	if err := do("A", "GET", objs[0], nil); err != nil {
+		return err
+	}
+	for _, u := range unauth {
+		for _, m := range []string{"GET", "HEAD"} {
+			if err := do(u, m, objs[0], nil); err != nil {
+				return err
+			}
+		}
+	}
+	if err := do("A", "HEAD", objs[0], nil); err != nil {
+		return err
+	}
+	if err := do("none", "GET", objs[0], nil); err != nil {
+		return err
+	}
+	// object 1: authorized first (twice), then unauthorized
+	for _, w := range []string{"A", "A", "none", "wrong", "A", "suffix", "none"} {
+		if err := do(w, "GET", objs[1], nil); err != nil {
+			return err
+		}
+	}
+	// object 2: a random interleaving
+	for k := 0; k < 10; k++ {
+		w := "A"
+		if rng.Bool() {
+			w = unauth[rng.Intn(len(unauth))]
+		}
+		if err := do(w, []string{"GET", "GET", "HEAD"}[rng.Intn(3)], objs[2], nil); err != nil {
+			return err
+		}
+	}
+	// an absent object and uploads (the server is read-only)
+	for _, w := range []string{"none", "A", "none", "wrong"} {
+		if err := do(w, "GET", absent[0], nil); err != nil {
+			return err
+		}
+		if err := do(w, "PUT", absent[0], body); err != nil {
+			return err
+		}
+	}
+	// and once more the first object, by everybody
+	for _, w := range []string{"none", "A", "wrong", "case"} {
+		if err := do(w, "GET", objs[0], nil); err != nil {
+			return err
 		}
 	}
 	return nil
